@@ -100,6 +100,57 @@ def c18_scan():
     return findings, checked, files
 
 
+def c20_recursion_scan():
+    """C20: which functions of the generator are recursive (directly or mutually)?  The step bound (unit cost) and the termination
+    measures cover update_stages_blocks / update_stages / add_types_recursive, rust_type recurses on strictly smaller type handles
+    (its decreases clause, unit wgsl_types); everything else is claimed to be plain loops over arenas.  This scan makes that claim
+    checkable: a call graph over the non-test sources (identifier followed by `(`, resolved by name), recursive = on a cycle."""
+    fns = {}
+    for f in sorted(x for x in os.listdir(SRC) if x.endswith('.rs')):
+        src = open(os.path.join(SRC, f), encoding='utf-8').read()
+        ts = lex(src)
+        limit = test_module_start(src, ts)
+        ts = [t for t in ts if t[2] < limit]
+        k = 0
+        while k < len(ts):
+            if ts[k][1] == 'fn' and k + 1 < len(ts) and ts[k + 1][0] == 'ident':
+                j = k + 2
+                while j < len(ts) and ts[j][1] not in ('{', ';'):
+                    if ts[j][1] in '([':
+                        j = match_close(ts, j)
+                    j += 1
+                if j < len(ts) and ts[j][1] == '{':
+                    e = match_close(ts, j)
+                    body = ts[j:e + 1]
+                    # templates of generated code are text
+                    calls = set()
+                    q = 0
+                    while q < len(body):
+                        if body[q][1] == 'quote' and q + 2 < len(body) and body[q + 1][1] == '!' and body[q + 2][1] in '([{':
+                            q = match_close(body, q + 2) + 1
+                            continue
+                        if body[q][0] == 'ident' and q + 1 < len(body) and body[q + 1][1] == '(' and not (q and body[q - 1][1] in ('.', 'fn')):
+                            calls.add(body[q][1])
+                        q += 1
+                    fns.setdefault(ts[k + 1][1], set()).update(calls)
+                    k = j + 1
+                    continue
+            k += 1
+    graph = {f: set(c for c in cs if c in fns) for f, cs in fns.items()}
+    rec = set()
+    for f in graph:
+        seen, stack = set(), list(graph[f])
+        while stack:
+            g = stack.pop()
+            if g == f:
+                rec.add(f)
+                break
+            if g not in seen:
+                seen.add(g)
+                stack.extend(graph[g])
+    return sorted(rec), len(graph)
+
+
 def replay_available():
     return os.path.exists(os.path.join(REPLAY_DIR, 'Cargo.toml')) and os.path.exists(os.path.join(REPLAY_DIR, 'src', 'main.rs'))
 
@@ -146,6 +197,18 @@ def run(prop, tier, seed, unit_results):
             res['violations'].append({'unit': 'purity-scan', 'label': 'C18.scan-' + re.sub(r'[^A-Za-z0-9]+', '-', what)[:40].strip('-'),
                                       'failure': {'message': 'purity scan: %s at %s:%d' % (what, f, ln), 'blocks': [], 'labels': [], 'where': ['%s:%d' % (f, ln)], 'props': ['C18']},
                                       'witness': {'kind': 'source location', 'file': f, 'line': ln, 'what': what}})
+    if prop == 'C20':
+        try:
+            rec, nf = c20_recursion_scan()
+            covered = {'update_stages_blocks', 'update_stages', 'add_types_recursive', 'rust_type'}
+            res['report']['recursion_scan'] = {'functions': nf, 'recursive': rec, 'under_cost_or_termination_contract': sorted(covered),
+                                               'level': 'syntactic call graph of the non-test sources (bounded stand-in, not a proof): recursion occurs only in the functions whose cost / termination is under contract'}
+            extra_rec = [f for f in rec if f not in covered]
+            if extra_rec:
+                # new recursion that no contract bounds: the step bound says nothing about it (never an alarm by itself)
+                res['undecided'].append({'reason': 'recursion-outside-contract', 'unit': 'recursion-scan', 'detail': 'recursive function(s) without a cost contract: ' + ', '.join(extra_rec)})
+        except Exception as e:
+            res['report']['recursion_scan'] = {'error': str(e)[:200]}
     # Kani leaf harnesses (thorough tier): loop-free, full-domain => complete proofs; a failure carries a concrete counterexample
     if tier == 'thorough' and prop in ('C03', 'C14', 'C07') and os.environ.get('VERIF_KANI') != '0':
         try:
